@@ -609,15 +609,40 @@ def super_init_forwards(ctx, rel, rule, min_classes=1):
         theirs = [a.arg for a in pinit.args.posonlyargs + pinit.args.args][1:]
         theirs_kw = [a.arg for a in pinit.args.kwonlyargs]
         shared = [p for p in mine if p in theirs or p in theirs_kw]
-        sup = [c for c in ast.walk(init) if isinstance(c, ast.Call) and (call_name(c) or "") in ("super().__init__", f"{bname}.__init__")]
-        if not sup or not shared:
+        # every call of the parent's constructor that can run (a call behind `False and ..` cannot), not just the first one
+        from .exprnorm import _dead_ids, _known_truth
+        dead_ = _dead_ids(init)
+        for bo in ast.walk(init):
+            if isinstance(bo, ast.BoolOp):
+                for k_, v_ in enumerate(bo.values[:-1]):
+                    kt = _known_truth(v_) if not isinstance(v_, ast.Constant) else bool(v_.value)
+                    if (isinstance(bo.op, ast.And) and kt is False) or (isinstance(bo.op, ast.Or) and kt is True):
+                        dead_.update(id(x) for w_ in bo.values[k_ + 1:] for x in ast.walk(w_))
+        sup = [c for c in ast.walk(init) if isinstance(c, ast.Call) and (call_name(c) or "") in ("super().__init__", f"{bname}.__init__")
+               and id(c) not in dead_]
+        if not sup:
+            continue
+        if not shared and len(mine) < len(theirs):
             continue
         n += 1
+        missing = []
+        for c in sup:
+            args = list(c.args[1:]) if (call_name(c) or "").startswith(bname or "\0") else list(c.args)
+            bound = dict(zip(theirs, args))
+            bound.update({k.arg: k.value for k in c.keywords if k.arg})
+            # the VALUE the caller gave is handed on: the parameter is forwarded by name and not rebound in front of the call
+            rebound = {x.id for st in ast.walk(init) for x in ast.walk(st) if isinstance(x, ast.Name) and isinstance(x.ctx, (ast.Store, ast.Del))
+                       and getattr(x, "lineno", 0) <= getattr(c, "lineno", 0)}
+            missing += [p for p in shared if not (isinstance(bound.get(p), ast.Name) and bound[p].id == p) or p in rebound]
+            # a constructor that takes as many parameters as its parent hands every one of them on (a renamed parameter that is not
+            # passed silently becomes the parent's default)
+            if len(mine) >= len(theirs) and len(bound) < len(theirs) and not any(isinstance(a, ast.Starred) for a in args) \
+                    and not any(k.arg is None for k in c.keywords):
+                missing += [p for p in theirs if p not in bound]
         c = sup[0]
         args = list(c.args[1:]) if (call_name(c) or "").startswith(bname or "\0") else list(c.args)
         bound = dict(zip(theirs, args))
         bound.update({k.arg: k.value for k in c.keywords if k.arg})
-        missing = [p for p in shared if not (isinstance(bound.get(p), ast.Name) and bound[p].id == p)]
         ctx.ob(rule, rel, f"{cname}.__init__", f"super().__init__ receives {sorted(bound)}; shared parameters {shared}", not missing,
                f"parameter `{missing[0] if missing else ''}` of {cname}() is not handed on to {bname}.__init__ (gets "
                + ("its default there" if missing and missing[0] not in bound else "another value") + ")", c.lineno)
@@ -665,8 +690,33 @@ def alphabets_fit_matrix(ctx, rel, qual, rule, pairs=(("1", "seq1"), ("2", "seq2
     # the refusing guard (possibly under an opt-out flag such as check_matrix): what holds when it does not raise
     guards = [st for st in ast.walk(f) if isinstance(st, ast.If) and not st.orelse and st.body and isinstance(st.body[-1], ast.Raise)
               and any(isinstance(c, ast.Call) and isinstance(c.func, ast.Attribute) and c.func.attr == "extends" for c in ast.walk(st.test))]
+    # the guard counts where it is evaluated unconditionally, in front of everything else: a statement of the function body itself
+    # (or of a top-level `if <flag parameter>:` - the documented opt-out), not dead code, and with the names it mentions still
+    # bound to the caller's arguments (no store to them in front of it)
+    from .exprnorm import _dead_ids
+    dead = _dead_ids(f)
+    params = {a.arg for a in f.args.posonlyargs + f.args.args + f.args.kwonlyargs}
+    placed = []
+    for k_, st in enumerate(f.body):
+        cands_ = [st] if st in guards else ([b for b in st.body if b in guards] if isinstance(st, ast.If) and isinstance(st.test, ast.Name)
+                                              and st.test.id in params and not st.orelse else [])
+        for g in cands_:
+            if id(g) in dead:
+                continue
+            mentioned = {x.id for x in ast.walk(g.test) if isinstance(x, ast.Name)}
+            earlier = {x.id for p_ in f.body[:k_] for x in ast.walk(p_) if isinstance(x, ast.Name) and isinstance(x.ctx, (ast.Store, ast.Del))}
+            # ... and not rebound afterwards either, unless the reference function did the same (the banded aligner swaps the sequences
+            # and transposes the matrix with them): more stores to a name of the guard than the reference had void what it established
+            ref_counts = getattr(f, "_ref_store_counts", None)
+            more = False
+            if ref_counts is not None:
+                from .exprnorm import store_counts
+                now_ = store_counts(f)
+                more = any(now_.get(nm_, 0) > ref_counts.get(nm_, 0) for nm_ in mentioned)
+            if not (mentioned & earlier) and not more:
+                placed.append(g)
     known = set()
-    for g in guards[:1]:
+    for g in placed[:1]:
         for cj in facts.conjuncts(facts.negate(_copy.deepcopy(g.test))):
             known.add(canon(cj))
     missing = [k for k, sq in pairs if spec(f"matrix.get_alphabet{k}().extends({sq}.get_alphabet())") not in known]
